@@ -408,6 +408,16 @@ func c15ObserverPrograms(r *Rng, n int) []cProg {
 		if r.Intn(3) == 0 {
 			obs[r.Intn(2)].Kind = "readfile"
 		}
+		if i%3 == 2 {
+			// the mutating goroutine looks at its own result afterwards while the other one looks once, possibly in the
+			// middle of the mutation: whatever the observer saw, the mutator must read its own (completed) write
+			own := Op{Kind: "stat", P: a}
+			if r.Intn(4) == 0 {
+				own = Op{Kind: "mkdir", P: a, Perm: 0o755} // fails with EEXIST exactly when the path exists
+			}
+			out = append(out, cProg{{m, own}, {obs[r.Intn(2)]}})
+			continue
+		}
 		out = append(out, cProg{{m}, obs})
 	}
 	return out
